@@ -145,6 +145,13 @@ func genDoc(c *core.Ctx, r *gen.R) *doc {
 	// coordinates are multiples of the PBF unit (1e-7 degree) in the value a PBF reader
 	// reconstructs, so that the XML and the PBF spelling of a document carry identical floats
 	d := &doc{box: geom.Bounds{Min: geom.Point{X: normCoord(10), Y: normCoord(20)}, Max: geom.Point{X: normCoord(11), Y: normCoord(21)}}}
+	// id scheme: disjoint ranges per type, or every type numbered from 1 (as in real OSM data
+	// node 5, way 5 and relation 5 are different objects)
+	wayBase, cascBase, relBase := int64(100), int64(150), int64(200)
+	if r.Bool() {
+		wayBase, cascBase, relBase = 1, 30, 1
+		c.Count("doc.ids_overlap_across_types")
+	}
 	nn := r.IntRange(2, 30)
 	for i := 0; i < nn; i++ {
 		n := dnode{ID: int64(1 + i), Tags: randTags(r, 0.15)}
@@ -175,7 +182,7 @@ func genDoc(c *core.Ctx, r *gen.R) *doc {
 		for j := 0; j < k; j++ {
 			out := dnode{ID: base + 2 + int64(j), Lon: normCoord(r.Range(11.5, 13)), Lat: normCoord(r.Range(18, 23))}
 			d.nodes = append(d.nodes, out)
-			w := dway{ID: int64(150 + j), Nodes: []int64{prev, out.ID}}
+			w := dway{ID: cascBase + int64(j), Nodes: []int64{prev, out.ID}}
 			if r.Chance(0.3) {
 				w.Nodes = append(w.Nodes, out.ID+1000*0) // harmless repeat
 			}
@@ -186,7 +193,7 @@ func genDoc(c *core.Ctx, r *gen.R) *doc {
 		nn = len(d.nodes)
 	}
 	for i := 0; i < nw; i++ {
-		w := dway{ID: int64(100 + i), Tags: randTags(r, 0.25)}
+		w := dway{ID: wayBase + int64(i), Tags: randTags(r, 0.25)}
 		for k := r.IntRange(2, 6); k > 0; k-- {
 			w.Nodes = append(w.Nodes, d.nodes[r.Intn(nn)].ID)
 		}
@@ -195,7 +202,7 @@ func genDoc(c *core.Ctx, r *gen.R) *doc {
 	nr := r.IntRange(0, 8)
 	cycle := false
 	for i := 0; i < nr; i++ {
-		rel := drel{ID: int64(200 + i), Tags: randTags(r, 0.3)}
+		rel := drel{ID: relBase + int64(i), Tags: randTags(r, 0.3)}
 		for k := r.IntRange(1, 5); k > 0; k-- {
 			switch r.Intn(4) {
 			case 0:
@@ -205,7 +212,7 @@ func genDoc(c *core.Ctx, r *gen.R) *doc {
 					rel.Members = append(rel.Members, member{'w', d.ways[r.Intn(len(d.ways))].ID})
 				}
 			default:
-				ref := int64(200 + r.Intn(nr)) // any relation, also later ones and itself: chains and cycles
+				ref := relBase + int64(r.Intn(nr)) // any relation, also later ones and itself: chains and cycles
 				if ref <= rel.ID {
 					cycle = true
 				}
